@@ -84,6 +84,10 @@ class RecRng:
     def random(self):
         return self._rec(self.base.random())
 
+    def chance(self, p):
+        """a yes/no decision with probability p: the *decision* is recorded, so a replay does not depend on p"""
+        return self._rec(bool(self.base.random() < p))
+
     def uniform(self, a, b):
         return self._rec(self.base.uniform(a, b))
 
@@ -115,13 +119,27 @@ class ReplayRng:
         return v
 
     def random(self):
-        return self._next()
+        v = self._next()
+        if isinstance(v, bool) or not isinstance(v, (int, float)):
+            raise Abort("replay log does not match the generator any more")
+        return v
+
+    def chance(self, p):
+        v = self._next()
+        if isinstance(v, bool):
+            return v
+        if isinstance(v, (int, float)):
+            return v < p            # logs recorded before decisions were recorded as such
+        raise Abort("replay log does not match the generator any more")
 
     def uniform(self, a, b):
-        return self._next()
+        return self.random()
 
     def randint(self, a, b):
-        return self._next()
+        v = self._next()
+        if isinstance(v, bool) or not isinstance(v, int):
+            raise Abort("replay log does not match the generator any more")
+        return v
 
     def choice(self, seq):
         v = self._next()
@@ -146,17 +164,17 @@ def make_values(rng, kind, n):
     if kind == "f":
         return [round(rng.uniform(-5, 5), 2) for _ in range(n)]
     if kind == "fn":
-        return [float("nan") if rng.random() < 0.4 else round(rng.uniform(-5, 5), 2) for _ in range(n)]
+        return [float("nan") if rng.chance(0.4) else round(rng.uniform(-5, 5), 2) for _ in range(n)]
     if kind == "f4":
         return np.array([rng.randint(-4, 4) / 2 for _ in range(n)], dtype="float32")
     if kind == "i":
         return np.array([rng.randint(-9, 9) for _ in range(n)], dtype="int64")
     if kind == "b":
-        return np.array([rng.random() < 0.5 for _ in range(n)], dtype=bool)
+        return np.array([rng.chance(0.5) for _ in range(n)], dtype=bool)
     if kind == "s":
         return pd.array([rng.choice(["x", "y", "zz", ""]) for _ in range(n)], dtype="str")
     if kind == "sn":
-        return pd.array([None if rng.random() < 0.4 else rng.choice(["x", "y"]) for _ in range(n)], dtype="str")
+        return pd.array([None if rng.chance(0.4) else rng.choice(["x", "y"]) for _ in range(n)], dtype="str")
     if kind == "o":
         return np.array([rng.choice([1, "x", None, 2.5, True]) for _ in range(n)], dtype=object)
     if kind == "M":
@@ -165,15 +183,15 @@ def make_values(rng, kind, n):
         return pd.to_datetime(["2020-01-%02d 12:00" % rng.randint(1, 28) for _ in range(n)]).tz_localize(
             rng.choice(["UTC", "Europe/Copenhagen"]))
     if kind == "F8":
-        return pd.array([None if rng.random() < 0.3 else rng.randint(0, 9) / 4 for _ in range(n)], dtype="Float64")
+        return pd.array([None if rng.chance(0.3) else rng.randint(0, 9) / 4 for _ in range(n)], dtype="Float64")
     if kind == "P":
         return pd.period_range("2020-01", periods=n, freq="M").array if n else pd.array([], dtype="period[M]")
     if kind == "c":
         return pd.Categorical([rng.choice(["u", "v"]) for _ in range(n)], categories=["u", "v"])
     if kind == "I":
-        return pd.array([None if rng.random() < 0.3 else rng.randint(0, 9) for _ in range(n)], dtype="Int64")
+        return pd.array([None if rng.chance(0.3) else rng.randint(0, 9) for _ in range(n)], dtype="Int64")
     if kind == "B":
-        return pd.array([None if rng.random() < 0.3 else rng.random() < 0.5 for _ in range(n)], dtype="boolean")
+        return pd.array([None if rng.chance(0.3) else rng.chance(0.5) for _ in range(n)], dtype="boolean")
     if kind == "m":
         return pd.to_timedelta([rng.randint(0, 9) for _ in range(n)], unit="s")
     if kind == "C":
@@ -441,11 +459,11 @@ def init_table(ctx, plan=None):
         ncol = rng.choice([0, 1, 2, 2, 3, 3, 4])
         nrow = rng.choice([0, 1, 2, 2, 3])
         names = rng.sample(NAMES, ncol)
-        if ncol >= 2 and rng.random() < 0.04:
+        if ncol >= 2 and rng.chance(0.04):
             names[1] = names[0]                              # duplicate labels
         kinds = [rng.choice(KINDS) for _ in range(ncol)]
         mode = rng.choice(["good", "good", "good", "none", "wrong", "short", "long", "map"])
-        strict = rng.random() < 0.8
+        strict = rng.chance(0.8)
     else:
         names, kinds, nrow, mode, strict = plan
         ncol = len(names)
@@ -463,7 +481,7 @@ def init_table(ctx, plan=None):
     elif mode == "long":
         units = goods + ["kg"]
     elif mode == "map":
-        unit_map = {n: u for n, u in zip(names, goods) if rng.random() < 0.7}
+        unit_map = {n: u for n, u in zip(names, goods) if rng.chance(0.7)}
     if units is not None:
         units = [fresh(u) for u in units]
     if unit_map is not None:
@@ -522,9 +540,9 @@ def op_add_column(ctx, setitem=False):
     if not setitem:
         r = rng.random()
         unit = fresh(None if r < 0.3 else (good_unit(rng, vals) if r < 0.75 else rng.choice(PHYS + SPECIAL)))
-        if rng.random() < 0.25:
+        if rng.chance(0.25):
             kw["display_format"] = ColumnFormat(rng.choice([1, 2, "8.3e"]))
-        if rng.random() < 0.15:
+        if rng.chance(0.15):
             kw["display_unit"] = rng.choice(["mm", ""])
     t = Table(ctx.df)
     was_registered = name in ctx.info.columns
@@ -599,10 +617,10 @@ def op_set_units(ctx):
     rng = ctx.rng
     cur = list(ctx.df.columns)
     k = rng.choice([1, 1, 2, 3])
-    names = [rng.choice(cur) if cur and rng.random() < 0.9 else rng.choice(NAMES) for _ in range(k)]
+    names = [rng.choice(cur) if cur and rng.chance(0.9) else rng.choice(NAMES) for _ in range(k)]
     m = {}
     for n in names:
-        m[n] = rng.choice(PHYS) if rng.random() < 0.8 else rng.choice(SPECIAL)
+        m[n] = rng.choice(PHYS) if rng.chance(0.8) else rng.choice(SPECIAL)
     t = Table(ctx.df)
     try:
         pre = dict((n, c.unit) for n, c in ctx.info.columns.items())
@@ -627,7 +645,7 @@ def op_set_all_units(ctx):
     from pdtable.frame import set_all_units
     rng = ctx.rng
     n = len(ctx.df.columns)
-    us = [rng.choice(PHYS) if rng.random() < 0.85 else rng.choice(SPECIAL) for _ in range(rng.choice([n, n, n + 1, max(0, n - 1)]))]
+    us = [rng.choice(PHYS) if rng.chance(0.85) else rng.choice(SPECIAL) for _ in range(rng.choice([n, n, n + 1, max(0, n - 1)]))]
     pre = dict((k, c.unit) for k, c in ctx.info.columns.items())
     try:
         quiet(set_all_units, ctx.df, us)
@@ -651,7 +669,7 @@ def op_set_col_unit(ctx):
     from pdtable import Table
     rng = ctx.rng
     name = pick_name(ctx, 0.1)
-    u = rng.choice(PHYS) if rng.random() < 0.8 else rng.choice(SPECIAL)
+    u = rng.choice(PHYS) if rng.chance(0.8) else rng.choice(SPECIAL)
     pre = ctx.info.columns[name].unit if name in ctx.info.columns else None
     try:
         col = quiet(Table(ctx.df).__getitem__, name)
@@ -677,7 +695,7 @@ def op_set_format(ctx):
     from pdtable.table_metadata import ColumnFormat
     rng = ctx.rng
     numeric = [c for c, dt in zip(ctx.df.columns, ctx.df.dtypes) if dt.kind in "fi"]
-    name = rng.choice(numeric) if numeric and rng.random() < 0.8 else pick_name(ctx, 0.1)
+    name = rng.choice(numeric) if numeric and rng.chance(0.8) else pick_name(ctx, 0.1)
     spec = rng.choice([1, 3, "8.3e", ".2f", "+.1f", None])
     fmt = None if spec is None else ColumnFormat(spec)
     try:
@@ -698,8 +716,8 @@ def op_set_strict(ctx):
     directly on the info object)"""
     from pdtable import Table
     rng = ctx.rng
-    b = rng.random() < 0.6
-    if rng.random() < 0.7:
+    b = rng.chance(0.6)
+    if rng.chance(0.7):
         try:
             units = list(quiet(lambda: Table(ctx.df).units))
             ures = units
@@ -724,8 +742,8 @@ def op_rewrap(ctx):
     mode = rng.choice(["units", "units", "name", "strict"])
     us, st, kw = None, None, {}
     if mode == "units":
-        us = [rng.choice(PHYS) if rng.random() < 0.6 else rng.choice(SPECIAL) for _ in range(rng.choice([n, n, n, n + 1, max(0, n - 1)]))]
-        if rng.random() < 0.5:
+        us = [rng.choice(PHYS) if rng.chance(0.6) else rng.choice(SPECIAL) for _ in range(rng.choice([n, n, n, n + 1, max(0, n - 1)]))]
+        if rng.chance(0.5):
             # keep the units that are right for the data
             try:
                 us = [good_unit(rng, ctx.df[c]) for c in ctx.df.columns]
@@ -735,7 +753,7 @@ def op_rewrap(ctx):
     elif mode == "name":
         kw["name"] = "renamed"
     else:
-        st = rng.random() < 0.5
+        st = rng.chance(0.5)
         kw["strict_types"] = st
     old_info = ctx.info
     old_slot = ctx.cur.slot
@@ -779,7 +797,7 @@ def op_df_insert(ctx):
     kind = rng.choice(KINDS)
     vals = make_values(rng, kind, nrows_for_assign(ctx))
     pos = rng.randint(0, len(ctx.df.columns))
-    allow = rng.random() < 0.1
+    allow = rng.chance(0.1)
     known = name in ctx.info.columns
     if name in ctx.df.columns:
         ctx.assigned.pop(name, None)          # duplicate label: which column "owns" the unit is undefined
@@ -824,7 +842,7 @@ def op_df_rename(ctx):
 def op_df_setcols(ctx):
     rng = ctx.rng
     n = len(ctx.df.columns)
-    new = rng.sample(NAMES, n) if rng.random() < 0.5 else rng.sample(list(ctx.df.columns), n)
+    new = rng.sample(NAMES, n) if rng.chance(0.5) else rng.sample(list(ctx.df.columns), n)
     for c in new:
         if c not in ctx.info.columns:
             ctx.expect_default[c] = True
@@ -851,7 +869,7 @@ def op_df_move(ctx):
 
 
 def op_df_sortcols_inplace(ctx):
-    asc = ctx.rng.random() < 0.5
+    asc = ctx.rng.chance(0.5)
     return inplace(ctx, lambda df: df.sort_index(axis=1, ascending=asc, inplace=True), f"df.sort_index(axis=1,asc={asc},inplace)")
 
 
@@ -888,14 +906,14 @@ def row_for(ctx, foreign):
     row = []
     for dt in ctx.df.dtypes:
         k = dt.kind
-        if foreign and rng.random() < 0.5:
+        if foreign and rng.chance(0.5):
             row.append(rng.choice(["txt", 1.5, True, None]))
         elif k == "f":
             row.append(rng.uniform(0, 3))
         elif k in "iu":
             row.append(rng.randint(0, 5))
         elif k == "b":
-            row.append(rng.random() < 0.5)
+            row.append(rng.chance(0.5))
         elif k == "M":
             import pandas as pd
             row.append(pd.Timestamp("2021-03-04"))
@@ -906,7 +924,7 @@ def row_for(ctx, foreign):
 
 def op_df_loc_append(ctx):
     rng = ctx.rng
-    foreign = rng.random() < 0.4
+    foreign = rng.chance(0.4)
     row = row_for(ctx, foreign)
     label = (max([i for i in ctx.df.index if isinstance(i, int)] + [-1]) + 1)
 
@@ -1006,21 +1024,21 @@ def other_table(ctx, share=True):
     cur = list(ctx.df.columns)
     names = []
     for _ in range(n):
-        c = rng.choice(cur) if cur and share and rng.random() < 0.5 else rng.choice(NAMES)
+        c = rng.choice(cur) if cur and share and rng.chance(0.5) else rng.choice(NAMES)
         if c not in names:
             names.append(c)
     nrow = rng.choice([len(ctx.df), len(ctx.df), 1, 2, 0])
     cols, units = {}, []
     cur_units = {k: c.unit for k, c in ctx.info.columns.items()}
     for c in names:
-        if c in cur and rng.random() < 0.75 and len(set(cur)) == len(cur):
+        if c in cur and rng.chance(0.75) and len(set(cur)) == len(cur):
             # same kind and (mostly) same unit as the current table's column
             src = ctx.df[c]
             try:
                 vals = make_values(rng, {"f": "f", "i": "i", "b": "b", "M": "M"}.get(src.dtype.kind, "s"), nrow)
             except Exception:
                 vals = make_values(rng, "f", nrow)
-            u = cur_units.get(c, "-") if rng.random() < 0.8 else rng.choice(PHYS)
+            u = cur_units.get(c, "-") if rng.chance(0.8) else rng.choice(PHYS)
         else:
             vals = make_values(rng, rng.choice(["f", "i", "b", "s", "M"]), nrow)
             u = good_unit(rng, vals)
@@ -1028,7 +1046,7 @@ def other_table(ctx, share=True):
         units.append(fresh(u))
     df = pd.DataFrame(cols)
     try:
-        return quiet(Table, df, name="other", units=units, strict_types=rng.random() < 0.85), names
+        return quiet(Table, df, name="other", units=units, strict_types=rng.chance(0.85)), names
     except Exception:
         return quiet(Table, df, name="other"), names
 
@@ -1119,7 +1137,7 @@ def op_copy(ctx):
 def op_sort_index(ctx):
     rng = ctx.rng
     ax = rng.choice([0, 1, 1])
-    asc = rng.random() < 0.5
+    asc = rng.chance(0.5)
     return derived(ctx, lambda df: df.sort_index(axis=ax, ascending=asc), f"df.sort_index(axis={ax},asc={asc})")
 
 
@@ -1136,8 +1154,8 @@ def op_concat(ctx):
     rng = ctx.rng
     axis = rng.choice([0, 1])
     o, names = other_table(ctx, share=(axis == 0))
-    first = rng.random() < 0.7
-    if axis == 1 and rng.random() < 0.7:
+    first = rng.chance(0.7)
+    if axis == 1 and rng.chance(0.7):
         keep = [c for c in names if c not in list(ctx.df.columns)]
         odf = o.df[keep] if keep else o.df
     else:
@@ -1284,7 +1302,7 @@ def probe(ctx, writers):
             facade = list(dict.fromkeys(uniq[:4] + uniq[m - 4:m + 4] + uniq[-4:]))
         else:
             facade = uniq
-        for n in facade + ([ctx.rng.choice(NAMES)] if ctx.rng.random() < 0.3 else []):
+        for n in facade + ([ctx.rng.choice(NAMES)] if ctx.rng.chance(0.3) else []):
             try:
                 u = quiet(lambda: t[n].unit)
             except Exception as e:
@@ -1301,7 +1319,7 @@ def probe(ctx, writers):
             except Exception:
                 pass
 
-    lookups_first = ctx.rng.random() < 0.25      # the first consultation after an operation may be a column lookup
+    lookups_first = ctx.rng.chance(0.25)      # the first consultation after an operation may be a column lookup
     if lookups_first:
         out.count("probe:lookups_first")
         do_lookups()
@@ -1343,6 +1361,20 @@ def probe(ctx, writers):
         out.count("frame:" + ("empty" if df.empty else "rows"))
 
 
+_WB = []
+
+
+def _fresh_sheet():
+    """an empty in-memory worksheet (one workbook per process, a new sheet per probe, the previous one dropped)"""
+    import openpyxl
+    if not _WB:
+        _WB.append(openpyxl.Workbook())
+    wb = _WB[0]
+    for old in wb.worksheets[1:]:
+        wb.remove(old)
+    return wb.create_sheet()
+
+
 def run_writers(ctx, t):
     """names / units / formats as they appear in the three writers' outputs (text, dict, sheet rows)"""
     import openpyxl
@@ -1353,7 +1385,7 @@ def run_writers(ctx, t):
     res = {}
     # the separator of this probe: given explicitly, or as the (temporarily changed) package default
     sep = ctx.rng.choice([";", ";", ",", "\t", "|"])
-    explicit = ctx.rng.random() < 0.5
+    explicit = ctx.rng.chance(0.5)
     ctx.out.count("csv_sep:" + repr(sep) + (":arg" if explicit else ":default"))
     old_default = pdtable.CSV_SEP
 
@@ -1385,8 +1417,7 @@ def run_writers(ctx, t):
                 ncol = len(t.df.columns)
                 res["csv_t"] = {"cols": [ln.split(sep) for ln in lines[2:2 + ncol]], "head": lines[0]}
                 try:
-                    wb = openpyxl.Workbook()
-                    ws = wb.active
+                    ws = _fresh_sheet()
                     quiet(_append_table_to_openpyxl_worksheet, t, ws, 1, "-")
                     rows = list(ws.iter_rows(values_only=True))
                     res["xlsx_t"] = {"cols": [[r[0], r[1]] for r in rows[2:2 + ncol]], "head": rows[0][0]}
@@ -1404,8 +1435,7 @@ def run_writers(ctx, t):
     except Exception as e:
         res["json"] = dict(exc_name(e), value_level=_raised_in(e, "to_json_serializable"))
     try:
-        wb = openpyxl.Workbook()
-        ws = wb.active
+        ws = _fresh_sheet()
         quiet(_append_table_to_openpyxl_worksheet, t, ws, 1, "-")
         rows = list(ws.iter_rows(values_only=True))
         if len(t.df.columns) == 0:
@@ -1623,7 +1653,7 @@ def probe_siblings(ctx, limit=3):
         for ts in others:
             ctx.cur = ts
             ctx.out.count("sibling_consulted")
-            probe(ctx, writers=(ctx.rng.random() < 0.25))
+            probe(ctx, writers=(ctx.rng.chance(0.25)))
     finally:
         ctx.cur = cur
 
@@ -1658,7 +1688,7 @@ def run_history(out, prop, seed, stream, index, depth, weights=None, plan=None, 
         steps = script if script is not None else [None] * depth
         for s in steps:
             k = s if s is not None else rng.choices(names, wts)[0]
-            skip = k.endswith("!") or (s is None and rng.random() < 0.25)
+            skip = k.endswith("!") or (s is None and rng.chance(0.25))
             k = k.rstrip("!")
             d = OPS[k][0](ctx)
             out.count("op:" + k)
@@ -1675,7 +1705,7 @@ def run_history(out, prop, seed, stream, index, depth, weights=None, plan=None, 
                 out.count("probe_skipped")
             else:
                 case["ops"].append(d)
-                probe(ctx, writers=(rng.random() < 0.4))
+                probe(ctx, writers=(rng.chance(0.4)))
                 probe_siblings(ctx)
     except Abort as a:
         out.count("cut:" + str(a))
@@ -1713,14 +1743,14 @@ def function_level(out, rng, n):
     obs = Observer(out)
     for i in range(n):
         ncol = rng.randint(0, 4)
-        names = [rng.choice(NAMES[:5]) for _ in range(ncol)] if rng.random() < 0.15 else rng.sample(NAMES[:6], ncol)
+        names = [rng.choice(NAMES[:5]) for _ in range(ncol)] if rng.chance(0.15) else rng.sample(NAMES[:6], ncol)
         nrow = rng.choice([0, 1, 2])
         cols = [make_values(rng, rng.choice(KINDS), nrow) for _ in range(ncol)]
         df = pd.DataFrame({j: v for j, v in enumerate(cols)})
         df.columns = names
         reg_names = rng.sample(NAMES[:6], rng.randint(0, 5))
         reg = {nm: ColumnMetadata(rng.choice(PHYS + SPECIAL + SPECIAL)) for nm in reg_names}
-        strict = rng.random() < 0.75
+        strict = rng.chance(0.75)
         info = ComplementaryTableInfo(TableMetadata(name="x", strict_types=strict), columns=reg)
         before = reg_snapshot(info)
         try:
@@ -1811,7 +1841,7 @@ def run(tier, seed, model_ok, translator, search=False, prop="C04", weights=None
                 "transitions. Non-trivial: history with >= 1 successful consultation of "
                 "a table with rows after an operation; distinct by (start table, operation descriptions).")
     thorough = tier == "thorough"
-    n_rand = 1500 if thorough else 400
+    n_rand = 1500 if thorough else 320
     depth_max = 10
     ex_depth = 3 if thorough else 2
     if search:
@@ -1886,9 +1916,13 @@ def replay(rep, prop="C04", weights=None):
     if rec and rec.get("draws") is not None:
         # faithful replay: the recorded draws, start table plan, script and weights; no dependence on tier / stream
         plan = rec.get("plan")
-        run_history(out, prop, seed, stream, index, rec.get("depth") or 0,
-                    weights=C15_WEIGHTS if rec.get("weights") == "C15" else None,
-                    plan=None if plan is None else tuple(plan), script=rec.get("script"), draws=rec["draws"])
+        try:
+            run_history(out, prop, seed, stream, index, rec.get("depth") or 0,
+                        weights=C15_WEIGHTS if rec.get("weights") == "C15" else None,
+                        plan=None if plan is None else tuple(plan), script=rec.get("script"), draws=rec["draws"])
+        except (TypeError, ValueError, KeyError, IndexError, AttributeError) as e:
+            if not out.failures:
+                return True, f"replay log does not fit the current generator ({type(e).__name__}): nothing to report"
     elif stream.startswith("exE"):
         base = [x for x in scripts_of(E_ALPHABET, int(stream[3:])) if len(x) >= 2]
         sc = base[index % len(base)]
